@@ -35,6 +35,7 @@ type Peer struct {
 
 	Encrypted bool
 	Finished  bool
+	PadFirst  bool // put a padding TLV in front of the other TLVs of every data message (any order is legal)
 	SSID      [8]byte
 	PeerKey   PubKey
 
@@ -425,6 +426,9 @@ func (p *Peer) Send(text []byte, tlvs ...TLV) [][]byte {
 	flags := byte(0)
 	if len(text) == 0 {
 		flags = 1
+	}
+	if p.PadFirst {
+		tlvs = append([]TLV{{Type: 0, Value: make([]byte, 7)}}, tlvs...)
 	}
 	raw := BuildData(p.header(TypeData), flags, p.OurID-1, p.TheirID, p.OurCur.Pub, c.Send, BuildPlain(text, tlvs), k, p.ToReveal)
 	p.ToReveal = nil
